@@ -634,6 +634,8 @@ func (mru *memRepoUpload) Verify(expect digest.Digest) error {
 		return fmt.Errorf("digest mismatch, session expects %s, received %s", mru.expect, expect)
 	}
 	if mru.d.Digest() == expect {
+		// content written after the verification is rejected by Close
+		mru.expect = expect
 		return nil
 	}
 	if err := expect.Validate(); err != nil {
@@ -648,6 +650,7 @@ func (mru *memRepoUpload) Verify(expect digest.Digest) error {
 			return err
 		}
 		if mru.d.Digest() == expect {
+			mru.expect = expect
 			return nil
 		}
 	}
